@@ -115,6 +115,7 @@ def bounds_ok(prog, c, bi, t):
 def run(R, env):
     prog = env.prog("default")
     R.rule("C16.R1", "inventory: every unwrap / expect / index / slice / explicit panic construct in non-derive code reachable from the entry points of both contracts is listed and must be discharged by R2")
+    R.rule("C16.R7", "no `a - b` / `a -= b` with the panicking operator on Uint128 / Uint256 / Decimal is reachable from an entry point unless the site is unreachable in the world a < b (a comparison of the same operands dominates it); positive control committed")
     R.rule("C16.R2", "each site matches an idiom: (I1) unreachable in the world where its subject is None/Err (dominated by the matching test of the same value); (I1') strip_prefix(s, lit).unwrap() behind starts_with(s, lit); (I2) index / last().unwrap() unreachable when the collection is empty (directly or through a callee that rejects empty input), full-range slices are total; (I3) checked_sub(a, b).unwrap() unreachable in the world a < b; (I5) <batch>.received_native_unstaked.unwrap() reachable only behind <batch>.status == Received (the save that marks a batch Received stores Some(amount), obligation I4:received-set-with-status); (I4) a line of the reviewed justification table, with its structural obligation where one exists")
     R.rule("C16.R3", "an unwrap of an Option that is a configuration field validation allows to be absent (oracle_address, treasury_address) is never accepted through I4")
     R.rule("C16.R4", "no explicit panic!/unreachable!/assert! is reachable from an entry point; the detector is exercised on a committed positive-control body on every run")
@@ -323,6 +324,42 @@ def run(R, env):
     fxm = json.load(open(os.path.join(VERIF, "fixtures", "mul_body.json")))
     fbm = Body(prog, "fixture", fxm)
     R.ob("C16.R6", "positive-control", len([1 for _, t in fbm.calls() if is_mul128(t)]) == 1, "the 128-bit-product detector did not fire on the committed control body", fn="fixtures/mul_body.json")
+    # R7: panicking subtraction of amounts (`a - b` / `a -= b` on Uint128 / Uint256 / Decimal)
+    def is_sub_amount(t):
+        nm = call_name(t) or ""
+        res = (t.get("resolved") or "").split(" as ")[0]
+        return nm in ("std::ops::Sub::sub", "std::ops::SubAssign::sub_assign") and any(x in res for x in ("cosmwasm_std::Uint128", "cosmwasm_std::Uint256", "cosmwasm_std::Decimal", "cosmwasm_std::Uint64"))
+    nsub = 0
+    for k in bodies:
+        b = prog.bodies[k]
+        c = Ctx(b)
+        for bi, t in b.calls():
+            if not is_sub_amount(t):
+                continue
+            nsub += 1
+            idx = len(b.blocks[bi]["stmts"])
+            a_, b_ = [c.T.operand(x, bi, idx) for x in t["args"][:2]]
+            # unreachable in the world a < b (a comparison of the same two operands dominates the site)
+            rem = set()
+            n = 0
+            for abi, atom in c.atoms():
+                if atom[0] != "bool":
+                    continue
+                rel = cmp_rel(atom[1], lambda x: norm(x) == norm(a_), lambda y: norm(y) == norm(b_))
+                if rel is None:
+                    continue
+                n += 1
+                val = "<" in rel
+                for tg in atom[2][not val]:
+                    if tg not in atom[2][val]:
+                        rem.add((abi, tg))
+            w = c.with_removed(rem).settle()
+            okk = n >= 1 and bi not in w.T.reach
+            R.ob("C16.R7", "sub:" + descr(prog, b_), okk, "%s - %s with the panicking operator: nothing on this path excludes %s < %s (use checked_sub and return the typed error)" % (fmt(a_)[:80], fmt(b_)[:80], fmt(a_)[:40], fmt(b_)[:40]), loc=b.loc(bi), fn=k)
+    R.info("C16.R7", "panicking amount subtractions reachable from entry points: %d" % nsub)
+    fxs = json.load(open(os.path.join(VERIF, "fixtures", "sub_body.json")))
+    fbs = Body(prog, "fixture", fxs)
+    R.ob("C16.R7", "positive-control", len([1 for _, t in fbs.calls() if is_sub_amount(t)]) == 1, "the panicking-subtraction detector did not fire on the committed control body", fn="fixtures/sub_body.json")
     R.floor("C16.R1", "unwrap / index / bounds sites inspected", nsites, 30)
     R.call_sites += nsites
     stale = set(JUSTIFIED) - used_just
